@@ -124,4 +124,11 @@ TEXT = {
                  "Found the numbering gaps for S = k dt (fixed). Exploration.",
         "note": "Trusted: vtkparse.hpp and the harness's reading of 'alive when recorded' (see assumptions in the evidence).",
     },
+    "C14": {
+        "technique": "rapidcheck property-based testing; metamorphic relation (translation) checked in lock-step on real solvers with a noise-calibrated tolerance and a tie filter for discrete decisions",
+        "level": "Whole trajectories of generated tissues are compared node by node with their translated twins after every iteration, together "
+                 "with connectivity, cell count, volumes and pressures; the tolerance is measured per case from two noise-perturbed runs. "
+                 "Exploration over six translation classes including voxel-aligned shifts and origin crossings.",
+        "note": "Trusted: the tolerance model (see assumptions). Chaotic cases (noise amplified beyond the cap) are reported as inconclusive, not as violations.",
+    },
 }
